@@ -51,12 +51,20 @@ func c10ConsLists(k int) []string {
 
 type c10Case struct {
 	family string
-	stmts  []string // executed in order; the first is the CREATE TABLE t
+	stmts  []string // executed in order; the first is the CREATE TABLE
+	table  string   // name of the table ("" = t)
+}
+
+func (c *c10Case) tname() string {
+	if c.table == "" {
+		return "t"
+	}
+	return c.table
 }
 
 func c10Generate(thorough bool) []c10Case {
 	var cases []c10Case
-	add := func(family string, stmts ...string) { cases = append(cases, c10Case{family, stmts}) }
+	add := func(family string, stmts ...string) { cases = append(cases, c10Case{family: family, stmts: stmts}) }
 	wr := []string{"", " WITHOUT ROWID"}
 	// F1: one column under test (every type x every constraint list) + a plain column
 	k := 2
@@ -220,6 +228,13 @@ func c10Generate(thorough bool) []c10Case {
 		add("unicode-space", "CREATE TABLE t (a, b)", "CREATE INDEX i1 ON t (b"+sp+"DESC)")
 		add("unicode-space", "CREATE TABLE t (a, b)", "CREATE INDEX i1 ON t (b)"+sp+"WHERE a > 1")
 	}
+	// F6: table names that need quoting: automatic index names are built from the table name
+	for _, tn := range []string{"growth_%", "%s", "100%d", "a b", `q"r`, "T", "sqlite", "t.u", "naïve", "x'y"} {
+		q := QI(tn)
+		for _, def := range []string{"(a UNIQUE, b, PRIMARY KEY (b))", "(a PRIMARY KEY, b UNIQUE, c) WITHOUT ROWID", "(a INTEGER PRIMARY KEY, b, UNIQUE (b, a))"} {
+			cases = append(cases, c10Case{family: "table-names", stmts: []string{"CREATE TABLE " + q + " " + def, "CREATE INDEX i1 ON " + q + " (b DESC, a)"}, table: tn})
+		}
+	}
 	return cases
 }
 
@@ -245,14 +260,14 @@ type c10View struct {
 	Indexes map[string]c10Index
 }
 
-func c10Lite(l *lite.DB) (*c10View, error) {
+func c10Lite(l *lite.DB, table string) (*c10View, error) {
 	ts, err := LiteSchema(l)
 	if err != nil {
 		return nil, err
 	}
 	var t *LiteTable
 	for i := range ts {
-		if ts[i].Name == "t" {
+		if ts[i].Name == table {
 			t = &ts[i]
 		}
 	}
@@ -296,10 +311,10 @@ func c10Lite(l *lite.DB) (*c10View, error) {
 		for i := range vals {
 			vals[i] = fmt.Sprint(70 + i)
 		}
-		if err := l.Exec("INSERT INTO t VALUES (" + strings.Join(vals, ", ") + ")"); err != nil {
+		if err := l.Exec("INSERT INTO " + QI(table) + " VALUES (" + strings.Join(vals, ", ") + ")"); err != nil {
 			return nil, fmt.Errorf("probe insert: %v", err)
 		}
-		rows, err := l.Query("SELECT rowid FROM t")
+		rows, err := l.Query("SELECT rowid FROM " + QI(table))
 		if err != nil || len(rows) != 1 {
 			return nil, fmt.Errorf("probe select: %v", err)
 		}
@@ -314,7 +329,7 @@ func c10Lite(l *lite.DB) (*c10View, error) {
 		for i := range vals {
 			vals[i] = fmt.Sprint(70 + i)
 		}
-		if err := l.Exec("INSERT INTO t VALUES (" + strings.Join(vals, ", ") + ")"); err != nil {
+		if err := l.Exec("INSERT INTO " + QI(table) + " VALUES (" + strings.Join(vals, ", ") + ")"); err != nil {
 			return nil, fmt.Errorf("probe insert: %v", err)
 		}
 	}
@@ -435,6 +450,11 @@ func c10Class(stmts []string) string {
 
 var c10DumpSig = os.Getenv("VERIF_C10_DUMP")
 
+var (
+	c10NamedMu   sync.Mutex
+	c10NamedLeft = map[*lite.DB]bool{}
+)
+
 func c10One(r *ev.Run, l *lite.DB, c *c10Case) {
 	if c10DumpSig != "" {
 		before := r.HasViolation(c10DumpSig)
@@ -442,7 +462,23 @@ func c10One(r *ev.Run, l *lite.DB, c *c10Case) {
 			_ = before
 		}()
 	}
-	if err := l.Exec("DROP TABLE IF EXISTS t"); err != nil {
+	c10NamedMu.Lock()
+	left := c10NamedLeft[l]
+	c10NamedMu.Unlock()
+	if c.table != "" || left {
+		// tables of other names left behind by an earlier case (their index i1 would be in the way)
+		if rows, err := l.Query("SELECT name FROM sqlite_master WHERE type='table' AND name <> 'o' AND name NOT LIKE 'sqlite_%'"); err == nil {
+			for _, row := range rows {
+				if n, ok := row[0].(string); ok {
+					l.Exec("DROP TABLE IF EXISTS " + QI(n))
+				}
+			}
+		}
+		c10NamedMu.Lock()
+		c10NamedLeft[l] = c.table != ""
+		c10NamedMu.Unlock()
+	}
+	if err := l.Exec("DROP TABLE IF EXISTS " + QI(c.tname())); err != nil {
 		r.Harness("drop: %v", err)
 		return
 	}
@@ -454,7 +490,7 @@ func c10One(r *ev.Run, l *lite.DB, c *c10Case) {
 	}
 	r.Eval(1)
 	art := map[string]interface{}{"family": c.family, "statements": c.stmts}
-	want, err := c10Lite(l)
+	want, err := c10Lite(l, c.tname())
 	if err != nil {
 		r.Outcome("probe-failed")
 		return
@@ -469,7 +505,7 @@ func c10One(r *ev.Run, l *lite.DB, c *c10Case) {
 	}
 	d.RLock()
 	var s *sdb.Schema
-	p := Safely(func() { s, err = d.Schema("t") })
+	p := Safely(func() { s, err = d.Schema(c.tname()) })
 	d.RUnlock()
 	r.Trans(1)
 	if p != nil {
@@ -536,9 +572,9 @@ func c10One(r *ev.Run, l *lite.DB, c *c10Case) {
 		}
 	}
 	// end to end: the probe row reads back the same
-	wantRows, err := l.Query("SELECT * FROM t")
+	wantRows, err := l.Query("SELECT * FROM " + QI(c.tname()))
 	if err == nil {
-		gotRows, gerr := SelectAll(h, "t", want.Cols...)
+		gotRows, gerr := SelectAll(h, c.tname(), want.Cols...)
 		r.Trans(1)
 		if gerr != nil || !RowsEq(gotRows, wantRows, true) {
 			r.Violation("C10:probe-row:"+c10AliasClass(stmt)+cls, fmt.Sprintf("%s: the row (70, 71, ..) reads back as %v (err=%v), SQLite %v", stmt, RowsS(gotRows), gerr, RowsS(wantRows)), art)
@@ -552,7 +588,7 @@ func c10One(r *ev.Run, l *lite.DB, c *c10Case) {
 				}
 				var viaIdx [][]interface{}
 				var ierr error
-				if p := Safely(func() { viaIdx, ierr = IndexedAll(h, "t", n, want.Cols...) }); p != nil {
+				if p := Safely(func() { viaIdx, ierr = IndexedAll(h, c.tname(), n, want.Cols...) }); p != nil {
 					r.Violation("C10:probe-index:panic"+cls, fmt.Sprintf("%s: IndexedSelect through %q panics: %v", stmt, n, p), art)
 					continue
 				}
